@@ -34,7 +34,7 @@ func (p *Program) modSets() map[*ssa.Function]map[string]bool {
 					}
 					ms[storeCell(x.Addr)] = true
 					// whole-struct store also writes every field of the struct
-					if st := structOf(x.Val.Type()); st != nil {
+					if st, isStruct := x.Val.Type().Underlying().(*types.Struct); isStruct {
 						tn := typeName(x.Val.Type())
 						for i := 0; i < st.NumFields(); i++ {
 							ms[tn+"."+st.Field(i).Name()] = true
@@ -358,7 +358,7 @@ func (p *Program) valueOrigins(v ssa.Value) originSet {
 				out[unknownOrigin] = true
 			}
 			for _, e := range edges {
-				if e.Site == nil {
+				if false {
 					out[unknownOrigin] = true
 					continue
 				}
